@@ -93,6 +93,11 @@ impl Src {
             2 => {
                 t.insert("l".into(), Node::symlink("d", T0 + 132));
             }
+            3 => {
+                // a directory where the symlink was (and back): kind swaps across versions
+                t.insert("l".into(), Node::dir(T0 + 133));
+                t.insert("l/x".into(), Node::file(b"lx", T0 + 134));
+            }
             _ => {}
         }
         t
@@ -134,7 +139,7 @@ pub fn set_menu(full: bool) -> Vec<(u8, u8)> {
         for b in 0..=2 {
             v.push((2, b));
         }
-        for l in 0..=2 {
+        for l in 0..=3 {
             v.push((3, l));
         }
         v.push((4, 0));
